@@ -72,6 +72,16 @@ fn check_wvar(cfg: &Cfg, rep: &mut Report, tag: &str, shape: &[usize], data: &[f
                     }
                 }
             }
+            // very large / very small finite data: scaling the data by a power of two scales the variance by its square, exactly
+            if st.is_some() && data.len() <= 4 {
+                if let Ok(v1) = d.weighted_var(&w, ddof) {
+                    for k in [400i32, -400] {
+                        let ds = d.mapv(|x| x * 2f64.powi(k));
+                        let want = v1 * 2f64.powi(k) * 2f64.powi(k);
+                        match ds.weighted_var(&w, ddof) { Ok(vs) => if v1.is_finite() && !((vs - want).abs() <= 1e-12 * want.abs()) { bad.push(format!("weighted_var does not scale with the square of a power-of-two factor (very large / very small finite data) | 2^{}: {} vs {}", k, vs, want)); }, Err(e) => bad.push(format!("weighted_var of scaled data returned an error | {:?}", e)) }
+                    }
+                }
+            }
             bad
         });
         match r { Err(m) => rep.fail_p(cfg, &case, "C07", "weighted variance panicked", json!({"panic": m})), Ok(bad) => if !bad.is_empty() { { let lay = bad.iter().find(|b| b.starts_with("LAYOUT ")).cloned(); let other = bad.iter().find(|b| !b.starts_with("LAYOUT ")).cloned(); if let Some(l) = lay { rep.fail_p(cfg, &case, "C07,C20", l.split(" | ").next().unwrap_or(""), json!({"problems": bad})); } if let Some(o) = other { rep.fail_p(cfg, &case, "C07", o.split(" | ").next().unwrap_or(""), json!({"problems": bad})); } }; } }
@@ -129,6 +139,19 @@ fn check_cmoments(cfg: &Cfg, rep: &mut Report, tag: &str, shape: &[usize], data:
                 if !same(ku, ku_ref) { bad.push(format!("kurtosis is not mu4 / mu2^2 | {} vs {} [{}]", ku, ku_ref, lay)); }
             }
         }
+        // very large / very small finite data: central_moment(p) of 2^k x is 2^(k p) central_moment(p) of x, exactly
+        if n <= 6 {
+            for k in [100i32, -100] {
+                let ds = d.mapv(|x| x * 2f64.powi(k));
+                if let (Ok(b1), Ok(bs)) = (d.central_moments(max_order.min(6)), ds.central_moments(max_order.min(6))) {
+                    for p in 2..b1.len() {
+                        let f = 2f64.powi(k * p as i32);
+                        let want = b1[p] * f;
+                        if want.is_finite() && (want == 0.0 || want.abs() > 1e-290) && !((bs[p] - want).abs() <= 1e-11 * want.abs()) { bad.push(format!("central_moment(p) does not scale with the p-th power of a power-of-two factor (very large / very small finite data) | p={} 2^{}: {} vs {}", p, k, bs[p], want)); }
+                    }
+                }
+            }
+        }
         bad
     });
     match r { Err(m) => rep.fail_p(cfg, &case, "C07", "central moments panicked", json!({"panic": m})), Ok(bad) => if !bad.is_empty() { { let lay = bad.iter().find(|b| b.starts_with("LAYOUT ")).cloned(); let other = bad.iter().find(|b| !b.starts_with("LAYOUT ")).cloned(); if let Some(l) = lay { rep.fail_p(cfg, &case, "C07,C20", l.split(" | ").next().unwrap_or(""), json!({"problems": bad})); } if let Some(o) = other { rep.fail_p(cfg, &case, "C07", o.split(" | ").next().unwrap_or(""), json!({"problems": bad})); } }; } }
@@ -136,7 +159,7 @@ fn check_cmoments(cfg: &Cfg, rep: &mut Report, tag: &str, shape: &[usize], data:
 }
 
 pub fn moments(cfg: &mut Cfg, rep: &mut Report) {
-    rep.bound = "f64. weighted_var/std: every data vector over {-3,-0.5,0,1,2.25} and every weight vector over {0,0.5,1,3} for <= 3 elements (sampled for 4..8 elements and 2-D/3-D shapes, 3 layout pairings), ddof in {0,0.5,1}, plus data with a large mean (1e6,1e8,1e10 + small offsets); compared with the exact rational value of the definition, tolerance 8(n+2)u(S + sqrt(S W)|xbar|)/|W-ddof|. central moments, orders 0..8: every vector over the same alphabet for <= 4 elements, sampled up to 8 (thorough 16) elements, shapes up to 3-D x 5 layouts, plus large-mean data; tolerance 8(n+p)p u (1/n)sum(|x-xbar|+delta)^p; skewness/kurtosis bit for bit as functions of the central moments; per-axis variance lane by lane bit for bit".to_string();
+    rep.bound = "f64. weighted_var/std: every data vector over {-3,-0.5,0,1,2.25} and every weight vector over {0,0.5,1,3} for <= 3 elements (sampled for 4..8 elements and 2-D/3-D shapes, 3 layout pairings), ddof in {0,0.5,1}, plus data with a large mean (1e6,1e8,1e10 + small offsets); compared with the exact rational value of the definition, tolerance 8(n+2)u(S + sqrt(S W)|xbar|)/|W-ddof|. central moments, orders 0..8: every vector over the same alphabet for <= 4 elements, sampled up to 8 (thorough 16) elements, shapes up to 3-D x 5 layouts, plus large-mean data; tolerance 8(n+p)p u (1/n)sum(|x-xbar|+delta)^p; skewness/kurtosis bit for bit as functions of the central moments; per-axis variance lane by lane bit for bit; exact scaling under 2^400 / 2^-400 (variance) and 2^100 / 2^-100 (moments) for very large / very small finite data".to_string();
     let da = [-3.0f64, -0.5, 0.0, 1.0, 2.25];
     let wa = [0.0f64, 0.5, 1.0, 3.0];
     let mut rng = Lcg(cfg.seed + 77);
